@@ -219,11 +219,11 @@ class Replayer:
 
 
 def nproc_for(ck):
-    return 6 if ck.tier == "quick" else 8
+    return 4 if ck.tier == "quick" else 8
 
 
 # ----------------------------------------------------------------------------- role A
-def role_a(ck: Check):
+def role_a(ck: Check, which: str = "C25"):
     """The algorithms as transition systems, checked by TLC against the definitions."""
     t = "t" if ck.tier == "thorough" else "q"
     t0 = time.time()
@@ -233,12 +233,13 @@ def role_a(ck: Check):
     msgs = ["iterator that does not append Compute leaves + cost loop that multiplies in the own fanout: "
             "AllLeavesYielded, YieldedParentsAreAncestors, CostsCorrect, FlattenIsPath (the _flatten recursion as "
             "coded equals Path), GrowIsPrefixOK, FullIsWF hold on %d states" % res.distinct]
-    expect_bad = [
-        ("MC_ArchTree_iter_coded_parents.cfg", "iterator as coded (appends Compute leaves): YieldedParentsAreAncestors"),
-        ("MC_ArchTree_iter_coded_costs.cfg", "iterator + cost loop as coded: CostsCorrect"),
-    ]
+    bad_parents = ("MC_ArchTree_iter_coded_parents.cfg",
+                   "iterator as coded (appends Compute leaves): YieldedParentsAreAncestors")
+    bad_costs = ("MC_ArchTree_iter_coded_costs.cfg", "iterator + cost loop as coded: CostsCorrect")
+    expect_bad = [bad_parents if which == "C25" else bad_costs]
     if ck.tier == "thorough":
         expect_bad += [
+            bad_costs if which == "C25" else bad_parents,
             ("MC_ArchTree_iter_noown_costs.cfg", "repaired iterator, own fanout still not counted: CostsCorrect"),
             ("MC_ArchTree_iter_sib_costs.cfg", "own fanout counted, iterator as coded: CostsCorrect"),
             ("MC_ArchTree_iter_alias.cfg", "any variant, list object read after the iteration: "
@@ -260,10 +261,11 @@ def generator_plan(ck: Check, tag: str):
     w = {"workers": 4}
     if ck.tier == "quick":
         plan = [("MC_ArchTree_%s_full4q.cfg" % tag, w, True),
-                ("MC_ArchTree_%s_s6.cfg" % tag, w, True)]
-        nrand, depth = 1, 200
+                ("MC_ArchTree_%s_s5.cfg" % tag, w, True)]
+        nrand, depth = 1, 150
     else:
         plan = [("MC_ArchTree_%s_full4.cfg" % tag, w, True),
+                ("MC_ArchTree_%s_s5.cfg" % tag, w, True),
                 ("MC_ArchTree_%s_s6.cfg" % tag, w, True),
                 ("MC_ArchTree_%s_s7.cfg" % tag, w, True),
                 ("MC_ArchTree_%s_full5.cfg" % tag, {"workers": 8}, True)]
@@ -277,7 +279,7 @@ def generator_plan(ck: Check, tag: str):
 def run_generators(ck: Check, tag: str, which: str, sample_fn):
     rp = Replayer(ck, which, nproc_for(ck))
     try:
-        role_a(ck)
+        role_a(ck, which)
         parts = []
         for cfg, kw, exh in generator_plan(ck, tag):
             t0 = time.time()
